@@ -217,7 +217,9 @@ func (f *FrameHeader) readFrom(br *bufio.Reader) (int64, error) {
 
 		n, err = io.ReadFull(br, f.payload[:n])
 		if err != nil {
-			ReleaseFrame(f.fr)
+			// The body stays with the header: whoever owns f releases both.
+			// Releasing it here as well put it in the pool twice, and two
+			// later acquirers were handed the same frame.
 			return 0, err
 		}
 
